@@ -19,6 +19,14 @@ type canary struct {
 
 func startCanary() *canary {
 	c := &canary{stop: make(chan struct{})}
+	// several canaries: a stall can hit one scheduler thread and spare another
+	for k := 0; k < 4; k++ {
+		c.spawn()
+	}
+	return c
+}
+
+func (c *canary) spawn() {
 	c.wg.Add(1)
 	go func() {
 		defer c.wg.Done()
@@ -40,7 +48,6 @@ func startCanary() *canary {
 			}
 		}
 	}()
-	return c
 }
 
 func (c *canary) Stop() time.Duration {
@@ -53,6 +60,10 @@ func (c *canary) Worst() time.Duration { return time.Duration(atomic.LoadInt64(&
 
 // rtVerdict runs scenario up to `tries` times; scenario returns (violationClass, detail). A violation is
 // accepted only if the canary stayed below maxOversleep during that try; otherwise the try is inconclusive.
+// rtInconclusive is returned by a scenario that found its own actions mistimed (the harness was held up): the run is
+// repeated and counted as inconclusive, never as a violation.
+const rtInconclusive = "inconclusive:harness-mistimed"
+
 func rtVerdict(tries int, maxOversleep time.Duration, scenario func() (string, map[string]interface{})) (cls string, detail map[string]interface{}, inconclusive int) {
 	for t := 0; t < tries; t++ {
 		cn := startCanary()
@@ -60,6 +71,10 @@ func rtVerdict(tries int, maxOversleep time.Duration, scenario func() (string, m
 		worst := cn.Stop()
 		if cls == "" {
 			return "", nil, inconclusive
+		}
+		if cls == rtInconclusive {
+			inconclusive++
+			continue
 		}
 		if worst <= maxOversleep {
 			if detail == nil {
